@@ -16,11 +16,8 @@ OPTS = c01.OPTS
 
 
 def cases(tier):
-    cs = c01.cases(tier)
-    for c in cs:
-        # two nonreporting units so that sums of unit predictions are non-trivial
-        pass
-    return cs
+    # (the partial-null cases of C01 have NaN unit values by construction: a count that has not arrived has no prediction)
+    return [c for c in c01.cases(tier) if "partial_null" not in c["name"]]
 
 
 def run_bs(ctx, case):
